@@ -827,9 +827,14 @@ fn main() {
                 }
             };
             // ---- the case
-            let q_scope = ids.scopes(rs.scope.iter());
+            // the scope set the server actually received (the wire form splits at spaces)
+            let recv_scope: BTreeSet<String> = match &areq {
+                Ok(a) => a.scope.clone(),
+                Err(_) => rs.scope.clone(),
+            };
+            let q_scope = ids.scopes(recv_scope.iter());
             let bad: Vec<u64> = {
-                let mut v: Vec<u64> = rs.scope.iter().filter(|s| !scope_ok(s)).map(|s| ids.scope.id(s)).collect();
+                let mut v: Vec<u64> = recv_scope.iter().filter(|s| !scope_ok(s)).map(|s| ids.scope.id(s)).collect();
                 v.sort();
                 v
             };
@@ -858,7 +863,7 @@ fn main() {
             let id_coq = match &ident { Some((c, _)) => format!("(Some {})", c), None => "None".to_string() };
             let coq = capp("CAuth", &[ce_coq, id_coq, req_coq, cn(ct_s - BASE), out_coq, follow_coq]);
             let nontrivial = matches!(kind.as_str(), "permitted" | "consent_requested" | "err_InvalidOrigin" | "err_AccessDenied")
-                || (kind == "err_InvalidRequest" && rs.pk != PkIn::S256 && rs.prompt.is_empty() && !rs.scope.is_empty() && rs.rmode != Some(ResponseMode::Invalid));
+                || (kind == "err_InvalidRequest" && rs.pk != PkIn::S256 && rs.prompt.is_empty() && !recv_scope.is_empty() && rs.rmode != Some(ResponseMode::Invalid));
             if kind == "permitted" {
                 if let Some(p) = person {
                     if templates.len() < 40 && rng.chance(1, 4) {
@@ -880,7 +885,7 @@ fn main() {
                 rs.client.map(|k| w.clients[k].txt()).unwrap_or_else(|| "-".into()),
                 match &ispec { None => "none".to_string(), Some(s) => format!("acct={} sess={} verified={:?} groups={:?}", s.acct.as_u128() & 0xffff, s.session.as_u128() & 0xff, s.auth_time.map(|d| d.as_secs() as i64 - ct_s as i64), w.membership.get(&s.acct).map(|m| m.iter().map(|g| g.as_u128() & 0xffff).collect::<Vec<_>>())) },
                 rs.redirect,
-                rs.scope,
+                recv_scope,
                 rs.pk,
                 if rs.via_json { "(wire)" } else { "" },
                 rs.prompt.iter().map(prompt_str).collect::<Vec<_>>().join(" "),
